@@ -748,7 +748,7 @@ pub fn c13(ctx: &mut Ctx, layer: &str) {
         "vg" => 200,
         _ => {
             if ctx.thorough {
-                1_000_000
+                5_000_000
             } else {
                 150_000
             }
